@@ -188,6 +188,34 @@ func runC15(c *core.Ctx) {
 			}
 		}
 	}
+	// hasherOnly: f is the hashing function, or a helper all of whose callers are (the random id drawn on a table miss
+	// may come from `newHash()` instead of an inline uuid.New()). The callers must be enumerable: unexported, never
+	// used as a value, only plain static calls.
+	hasherOnlyMemo := map[*ssa.Function]bool{}
+	var hasherOnly func(f *ssa.Function, d int) bool
+	hasherOnly = func(f *ssa.Function, d int) bool {
+		if hashers[f] {
+			return true
+		}
+		if v, done := hasherOnlyMemo[f]; done {
+			return v
+		}
+		hasherOnlyMemo[f] = false // cycles: no
+		if d > 3 {
+			return false
+		}
+		sites, closed := f2CallSites(c, f)
+		if !closed || len(sites) == 0 {
+			return false
+		}
+		for _, s := range sites {
+			if _, isCall := s.(*ssa.Call); !isCall || !hasherOnly(s.Parent(), d+1) {
+				return false
+			}
+		}
+		hasherOnlyMemo[f] = true
+		return true
+	}
 	nCalls := 0
 	for _, f := range c.RepoFunctions() {
 		if core.IsCLIOrSample(core.FuncPkg(f)) {
@@ -207,7 +235,7 @@ func runC15(c *core.Ctx) {
 			switch {
 			case nowFns[f] && strings.HasPrefix(name, "time."):
 				c.OK("R15c", key, core.InstrPos(ci), "the documented now custom function (excluded by the property)")
-			case hashers[f] && strings.HasPrefix(name, "uuid.") && !inRun:
+			case hasherOnly(f, 0) && strings.HasPrefix(name, "uuid.") && !inRun:
 				c.OK("R15c", key, core.InstrPos(ci), "load-time declaration hash (used as a cache key only, see R15b)")
 			default:
 				c.Bad("R15c", key, core.InstrPos(ci), "a source of non-determinism ("+name+") is called on the schema-load/transform path outside the documented now function and the load-time hash")
